@@ -45,6 +45,7 @@ fn main() {
         "c07" => vmc::c07::main(tier),
         "c08" => vmc::c08::main(tier),
         "c09" => vmc::c09::main(tier),
+        "c19" => vmc::wirert::main(tier),
         "c17" => vmc::macenum::main(tier),
         "c18" => vmc::keysrel::main(tier),
         x if x.starts_with("dump-") => vmc::props::dump(&x[5..], tier),
